@@ -280,6 +280,7 @@ func corpusTS() []*modSpec {
 		mk("ts-unions", "package models\n\nimport \"time\"\n\ntype U interface{ isU() }\ntype A struct {\n\tX int `json:\"x\"`\n\tS []string\n}\ntype B struct{ T time.Time }\ntype N int\ntype L []int\n\nfunc (A) isU() {}\nfunc (B) isU() {}\nfunc (N) isU() {}\nfunc (L) isU() {}\n\ntype S struct {\n\tV U `json:\"v\"`\n\tHidden int `json:\"-\"`\n\tunexp int\n\tW U\n\tName string\n}\n\ntype List []U\ntype Dict map[string]U\ntype ByID map[int]U\n\ntype Outer struct {\n\tInner S\n\tItems List\n\tD Dict\n\tI ByID\n\tMany []S\n}\n"),
 		mk("ts-generics", "package models\n\ntype IdUser int64\ntype IdGroup int64\n\ntype Holder struct {\n\tU Opt[IdUser]\n\tG Opt[IdGroup]\n\tN Opt[int]\n\tP Pair[string, IdUser]\n\tQ Pair[IdUser, string]\n\tL []Opt[IdGroup]\n}\n",
 			modFile{"generic.go", "package models\n\ntype Opt[T any] struct {\n\tValid bool\n\tV T\n}\n\ntype Pair[A any, B any] struct {\n\tFirst A\n\tSecond B\n}\n"}),
+		mk("ts-opaque-with-json-name", "package models\n\ntype Payload struct{ A int }\n\ntype Event struct {\n\tID int `json:\"id\"`\n\tMeta Payload `json:\"meta_data\" gomacro-opaque:\"typescript\"`\n\tRaw Payload `gomacro-opaque:\"typescript\"`\n\tBoth Payload `json:\"both,omitempty\" gomacro-opaque:\"dart, typescript\"`\n\tComment string\n}\n"),
 		mk("ts-empty-tag-names", "package models\n\ntype Inner struct{ A int }\n\ntype S struct {\n\tNested Inner `json:\",omitempty\"`\n\tPair [2]int `json:\",omitempty\"`\n\tEmpty Inner `json:\"\"`\n\tPlain string\n}\n"),
 		withClass(mk("ts-string-option", "package models\n\ntype S struct {\n\tN int `json:\",string\"`\n\tB bool `json:\"b,string\"`\n\tPlain string\n}\n"), "json-string-option"),
 		withClass(mk("ts-bytes", "package models\n\ntype S struct {\n\tData []byte\n\tFixed [4]byte\n}\n"), "byte-slice-in-json"),
